@@ -5,6 +5,8 @@ import (
 	"errors"
 	"fmt"
 	"go/format"
+	"go/scanner"
+	"go/token"
 	"io"
 	"strings"
 	"unicode"
@@ -885,12 +887,44 @@ func (ea ExpressionAttribute) Write(w io.Writer, indent int) (err error) {
 	if err = writeIndent(w, indent, ea.Name, "={\n"); err != nil {
 		return err
 	}
-	for _, line := range lines {
+	insideRawString := rawStringContinuationLines(lines)
+	for i, line := range lines {
+		if insideRawString[i] {
+			// Indenting the continuation lines of a raw string literal would change its value.
+			if _, err = io.WriteString(w, line+"\n"); err != nil {
+				return err
+			}
+			continue
+		}
 		if err = writeIndent(w, indent, line, "\n"); err != nil {
 			return err
 		}
 	}
 	return writeIndent(w, indent, "}")
+}
+
+// rawStringContinuationLines reports, for each line of Go code, whether the line starts inside a
+// raw string literal that was opened on an earlier line.
+func rawStringContinuationLines(lines []string) (inside []bool) {
+	inside = make([]bool, len(lines))
+	src := []byte(strings.Join(lines, "\n"))
+	fset := token.NewFileSet()
+	file := fset.AddFile("", fset.Base(), len(src))
+	var s scanner.Scanner
+	s.Init(file, src, nil, 0)
+	for {
+		pos, tok, lit := s.Scan()
+		if tok == token.EOF {
+			break
+		}
+		if tok == token.STRING && strings.HasPrefix(lit, "`") {
+			first := fset.Position(pos).Line
+			for l := first + 1; l <= first+strings.Count(lit, "\n") && l <= len(lines); l++ {
+				inside[l-1] = true
+			}
+		}
+	}
+	return inside
 }
 
 // <a { spread... } />
